@@ -21,6 +21,9 @@ for p in props:
         "level_claimed": {
             "category": "other",
             "text": "Static analysis of /repo's working tree (nothing executed): " + m.EXPLANATION +
+                    " In addition, over the functions of this property's scope, per-function facts recorded from the confirmed tree are compared with the tree under analysis "
+                    "(generic rules G1-G10: options read and forwarded, positional argument roles, no result caches, no new object state, no new whole-buffer overwrite, no dropped "
+                    "copy, option polarity by CFG guards, calls and state updates on every normal path by CFG must-pass, no new unchecked shortcuts)."
                     " These are necessary structural conditions of the property, established for every analysed class/path/call site; "
                     "the numerical behaviour itself is not decided. Thorough tier adds the witness matrix: in-memory one-edit variants "
                     "of the current sources must make the intended rule fire, behaviour-preserving twins must stay silent.",
